@@ -4,9 +4,11 @@
 package simrt
 
 import (
+	"database/sql"
 	"fmt"
 	"reflect"
 	"sort"
+	"sync"
 )
 
 // Mode: 0 canonical ascending key order, 1 descending, 2 seeded permutation.
@@ -17,12 +19,33 @@ var (
 	n     uint64
 )
 
+// SQLOpen stands in for sql.Open in the scratch copy: the simulator opens the
+// database the daemon asks for (same driver name, same data source name, so
+// whatever journal / locking / sync mode the daemon chooses is in effect) but
+// behind its statement seam.
+var SQLOpen = func(driverName, dataSourceName string) (*sql.DB, error) {
+	return sql.Open(driverName, dataSourceName)
+}
+
 // Reset sets the order source for the next simulated daemon run.
 func Reset(mode int, seed uint64) {
 	Mode, Seed, n = mode, seed, 0
 }
 
+// mu guards Calls and the call counter: API handler goroutines and the sync
+// goroutine may reach rewritten sites at the same time once a run is released
+// from the scheduler.
+var mu sync.Mutex
+
+func count(site string) {
+	mu.Lock()
+	Calls[site]++
+	mu.Unlock()
+}
+
 func next() uint64 {
+	mu.Lock()
+	defer mu.Unlock()
 	// splitmix64 over (Seed, call counter): the schedule depends only on the seed
 	n++
 	z := Seed + n*0x9e3779b97f4a7c15
@@ -56,7 +79,7 @@ func keyLess(a, b reflect.Value) bool {
 // Order puts the keys of a map (given as a slice) into the order the
 // simulator chose for this run.
 func Order(keys interface{}, site string) {
-	Calls[site]++
+	count(site)
 	v := reflect.ValueOf(keys)
 	sort.SliceStable(keys, func(i, j int) bool { return keyLess(v.Index(i), v.Index(j)) })
 	permute(keys, v.Len())
@@ -80,7 +103,7 @@ func permute(slice interface{}, ln int) {
 // relative order of equal elements is whatever the simulator chose (any order
 // an unstable sort may legally produce is reachable, nothing else is).
 func UnstableSort(x interface{}, less func(i, j int) bool, site string) {
-	Calls[site]++
+	count(site)
 	if Mode != 0 {
 		permute(x, reflect.ValueOf(x).Len())
 	}
